@@ -321,9 +321,12 @@ def _run_op(hist, op, idx, *, tape=None, uberjob_kwargs=None, client_wrap=None, 
     rec.op = op
     rec.idx = idx
     seed = mix_seed(desc["seed"], "op", idx)
+    if built is None and op.get("reuse") and getattr(hist, "last_built", None) is not None:
+        built = hist.last_built    # the same process goes on: the very same Plan / Registry objects are run again
     if built is None:
         shims.install_node_hash(sc.get("salt", 0) + idx)
         built = build(world)
+    hist.last_built = built
     strategy = ("tape", tape) if tape is not None else tuple(sc["strategy"])
     sim = sched.Sim(
         seed,
